@@ -37,7 +37,7 @@ def batches(tier):
     b = []
     for L in range(1, 6 if tier == 'quick' else 8):
         b.append({'name': f'enum{L}', 'n': 2 * 8 ** L, 'profile': f'enum{L}'})
-    k = 1 if tier == 'quick' else 12
+    k = 1 if tier == 'quick' else 40
     b.append({'name': 'random', 'n': 20000 * k, 'profile': 'random'})
     b.append({'name': 'fault-sweep', 'n': 400 * k, 'profile': 'sweep', 'chunk': 8})
     return b
